@@ -44,10 +44,16 @@ syntax "gen_bool" : tactic
 macro_rules
   | `(tactic| gen_bool) => `(tactic| first
       | rfl
-      | (refine congrArg _ ?_
-         rw [Bool.eq_iff_iff]
-         simp only [Bool.and_eq_true, Bool.or_eq_true, Bool.not_eq_true', decide_eq_true_eq, decide_eq_false_iff_not,
-           Bool.not_eq_eq_eq_not, Bool.not_true, Bool.not_false] <;> first | omega | tauto))
+      | ((try dsimp only)
+         (repeat' split)
+         all_goals first
+           | rfl
+           | (refine congrArg _ ?_
+              rw [Bool.eq_iff_iff]
+              simp only [Bool.and_eq_true, Bool.or_eq_true, Bool.not_eq_true', decide_eq_true_eq,
+                decide_eq_false_iff_not, Bool.not_eq_eq_eq_not, Bool.not_true, Bool.not_false, Bool.false_eq_true,
+                Bool.true_eq_false, not_and, not_or, not_not, false_iff, true_iff, iff_false, iff_true] at *
+              <;> first | omega | tauto)))
 
 /-- Python ints of an index triple -/
 def idx3 (p : Nat × Nat × Nat) : Int × Int × Int := ((p.1 : Int), (p.2.1 : Int), (p.2.2 : Int))
